@@ -572,7 +572,7 @@ class Prop:
         one channel at the same time (free-running, nothing answers), then the loop carries the frames to the raw peer.  Oracle
         only - the model takes the id fetch as one atomic step (`idFetch`, extracted); here the real threads run: every id read
         from the wire must be distinct and there must be one frame per call."""
-        n, k = (6, 4000) if ctx.quick() else (8, 25000)
+        n, k = (6, 4000) if ctx.quick() else (8, 6000)       # (the harness tracks at most 65536 response objects per run)
         lines = ["flavour " + flavour, "chan 0 client", "idstress 0 %d %d" % (n, k)] + ["iter"] * 60
         case = Case("rpc", lines, "idstress:" + flavour)
         impl, _err = ctx.run_impl(self.exe(ctx, flavour), case, timeout=600)
